@@ -8,9 +8,11 @@ EXTENDS SacAdmin, TLC, Json
 CONSTANTS Depth, EmitEvery,
           Flavour,       \* "generic" | "wrapper"
           Max, Curr,     \* constructor arguments of the generic example: the first operator's limit
-          MGMT,          \* "code": a management call's context names the admin contract, not the SAC, and
-                         \*         extract_sac_contract_context refuses it (SACAddressMismatch) -- what the tree does;
-                         \* "intended": such a context is judged by the chief rule
+          MGMT,          \* "code": what the tree does -- (1) a management call's context names the admin contract, not
+                         \*         the SAC, and extract_sac_contract_context refuses it (SACAddressMismatch); (2) the amount
+                         \*         of mint / clawback is looked up at argument index 2, which a genuine SAC call does not
+                         \*         have (SACMissingFnParam);
+                         \* "intended": such a context is judged by the chief rule, the amount is found
           BUG            \* "" | "limit_single" | "remove_keeps" | "badsig_ok" | "role_any_key" | "wrap_no_role" | "wrap_no_auth"
 
 VARIABLES sadmin, sbal, sauthz, sexist,     \* the SAC: administrator, balance entries (amount, authorized, existence)
@@ -29,10 +31,12 @@ NoLim == [set |-> FALSE, max |-> 0, curr |-> 0]
 \* ---- the generic example's __check_auth for one context --------------------------------------
 SigOk(o) == o.key # None /\ (o.sig = "good" \/ BUG = "badsig_ok")
 Rule(f, o) ==
-  CASE f = "mint" -> /\ (o.key \in oper \/ BUG = "role_any_key")
+  CASE f = "mint" -> /\ MGMT = "intended"                                   \* get_fn_param(.., MINT_AMOUNT_INDEX)
+                     /\ (o.key \in oper \/ BUG = "role_any_key")
                      /\ lim[o.key].set                                   \* expect("limit not set")
                      /\ (IF BUG = "limit_single" THEN o.amt ELSE lim[o.key].curr + o.amt) <= lim[o.key].max
-    [] f \in {"clawback", "set_authorized"} -> o.key \in oper \/ BUG = "role_any_key"
+    [] f = "clawback" -> MGMT = "intended" /\ (o.key \in oper \/ BUG = "role_any_key")
+    [] f = "set_authorized" -> o.key \in oper \/ BUG = "role_any_key"
     [] OTHER -> o.key = Chief                                            \* set_admin and SacFn::Unknown
 CheckAuth(f, o) == SigOk(o) /\ Rule(f, o)
 
@@ -146,8 +150,9 @@ Bound == TRUE
 EmitReplay == (EmitEvery > 0 /\ (EmitEvery = 1 \/ RandomElement(1..EmitEvery) = 1)) => PrintT(<<"REPLAY", ToJson(hist')>>)
 
 NoViolation == viol = {}
-\* the tree as it is: the only monitor that fails is the converse about the chief's management calls
-KnownOnly == viol \subseteq {<<"X02_chief_manages", "management_context_is_not_the_sac">>}
+\* the tree as it is: only the two converse monitors fail, each in its recorded situation
+KnownOnly == viol \subseteq {<<"X02_chief_manages", "management_context_is_not_the_sac">>,
+                             <<"X02_operator_accepted", "sac_call_has_no_argument_2">>}
 Refines ==
   /\ g.sacAdmin = sadmin /\ g.bal = sbal /\ g.authz = sauthz /\ g.mgr = mgrs
   /\ \A h \in Holders : sbal[h] >= 0 /\ (sbal[h] > 0 => sexist[h])
